@@ -30,6 +30,7 @@ structure DState where
   c17 : Drv.C17.MonSt := {}
   c03 : Drv.C03.FullSt := {}
   c16 : Drv.C16.FullSt := {}
+  c11 : Drv.C11.FullSt := {}
   deriving Inhabited
 
 /-- full driver: regenerated model + monitor -/
@@ -39,7 +40,7 @@ def dispatch (st : DState) (prop : String) (l : Line) : DState × String :=
   | "C02" => let (s, r) := Drv.C02.stepSt st.c02 l; ({ st with c02 := s }, r)
   | "C12" => (st, Drv.C12.stepFull l)
   | "C20" => (st, Drv.C20.step l)
-  | "C11" => (st, Drv.C11.step l)
+  | "C11" => let (s, r) := Drv.C11.stepSt st.c11 l; ({ st with c11 := s }, r)
   | "C04" => let (s, r) := Drv.Flow.step "C04" st.c04 l; ({ st with c04 := s }, r)
   | "C07" => let (s, r) := Drv.Flow.step "C07" st.c07 l; ({ st with c07 := s }, r)
   | "C14" => (st, Drv.C14.step l)
